@@ -20,7 +20,11 @@ from .prov import FuncFacts
 FAILS: list[str] = []
 
 
+N_CHECKS = [0]
+
+
 def check(cond, msg):
+    N_CHECKS[0] += 1
     if not cond:
         FAILS.append(msg)
         print("FAIL", msg)
@@ -146,16 +150,201 @@ def t_program_model(repo):
         pass
 
 
+def _mod(src: str, name="fx"):
+    from .normalize import normalise
+    tree = ast.parse(textwrap.dedent(src))
+    tree, stats = normalise(tree)
+    return tree, stats
+
+
+def t_normal_forms():
+    tree, stats = _mod('''
+    def f(self, X, Y, kind):
+        out = {}
+        for key, val, ck in (("X", X, "c1"), ("Y", Y, "c2")):
+            if val is None:
+                continue
+            out[key] = val @ self.data[ck]
+        a, b = (z.conj() for z in (X, Y))
+        match kind:
+            case "fit":
+                ref = self.a
+            case "transform" | "t":
+                ref = self.b
+            case _:
+                raise ValueError(kind)
+        for i in (1, 2):
+            if i:
+                break
+        return out, a, b, ref
+    ''')
+    check(stats == {"loops_unrolled": 1, "tuple_comprehensions_split": 1, "match_statements_rewritten": 1}, f"normaliser statistics {stats}")
+    txt = ast.unparse(tree)
+    check("for key" not in txt and "key = 'X'" in txt and "ck = 'c2'" in txt, "literal loop unrolled into assignments + body copies")
+    check("if not val is None" in txt or "if not (val is None)" in txt, "`if c: continue` became `if not c: rest`")
+    check("a = X.conj()" in txt and "b = Y.conj()" in txt, "tuple = generator over a display split into assignments")
+    check("match" not in txt and "kind == 'fit'" in txt and "kind == 'transform' or kind == 't'" in txt and "else:" in txt, "match rewritten as if / elif / else")
+    check("for i in (1, 2)" in txt, "a loop with break is left alone")
+    compile(txt, "<fx>", "exec")
+    # provenance sees the literal key after unrolling
+    mod = ModuleInfo("fx", "<fx>", "<fx>", tree, txt, False)
+    fn = FuncInfo("f", "fx.f.n", mod, None, tree.body[0])
+    ff = FuncFacts.of(fn)
+    keys = set()
+    for st in ff.statements():
+        if isinstance(st, ast.Assign) and isinstance(st.targets[0], ast.Subscript):
+            for p in ff.paths(st.value, spine_only=True):
+                if p.container_key():
+                    keys.add(p.container_key())
+    check(keys == {("self.data", "c1"), ("self.data", "c2")}, f"container[key] with a local bound to a literal reads as the literal ({keys})")
+
+
+def t_conditions():
+    from .rules.common import inline_locals, effective_guards, atomic_conditions, cmp_forms, holds, static_truth, switch_cases, chain_heads
+    fn = _fn('''
+    def f(self, xs, n_data, power):
+        n = len(xs)
+        oblique = power > 1
+        for x in xs:
+            if not isinstance(x, int):
+                continue
+            if x == 0 or self.skip:
+                continue
+            use(x)
+        if not oblique:
+            return xs
+        if not (n != n_data):
+            return inv(xs)
+        raise ValueError
+    ''')
+    ff = FuncFacts.of(fn)
+    use = [c for c in ff.calls() if getattr(c.func, "id", "") == "use"][0]
+    ac = [(ast.unparse(t), pol) for t, pol in atomic_conditions(ff, use)]
+    check(("isinstance(x, int)", True) in ac and ("x == 0", False) in ac and ("self.skip", False) in ac, f"atoms of early-continue guards: {ac}")
+    inv = [c for c in ff.calls() if getattr(c.func, "id", "") == "inv"][0]
+    eg = [(ast.unparse(t), pol) for t, pol, _ in effective_guards(ff, inv)]
+    check(("power > 1", True) in eg, f"flag substituted and `not` folded: {eg}")
+    check(any(holds(t, pol, "Eq", lambda e: ast.unparse(e) == "len(xs)", lambda e: ast.unparse(e) == "n_data") for t, pol, _ in effective_guards(ff, inv)),
+          "`not (n != n_data)` with n = len(xs) holds as len(xs) == n_data")
+    t = ast.parse("not (a < 1)", mode="eval").body
+    forms = [(o, ast.unparse(a), ast.unparse(b)) for o, a, b in cmp_forms(t, True)]
+    check(forms == [("GtE", "a", "1"), ("LtE", "1", "a")], f"comparison forms {forms}")
+    check(static_truth(ast.parse("ref == 'fit' or ref in ('a', 'b')", mode="eval").body, {"ref": "b"}) is True, "static truth with a bound constant")
+    check(static_truth(ast.parse("ref == 'fit' and other", mode="eval").body, {"ref": "x"}) is False, "static truth short-circuits")
+    check(static_truth(ast.parse("other", mode="eval").body, {"ref": "x"}) is None, "static truth unknown")
+    tree, _ = _mod('''
+    def g(self):
+        match self.solver:
+            case "auto":
+                u = 1
+            case "full" | "exact":
+                u = 2
+            case _:
+                raise ValueError
+    ''')
+    sw = switch_cases(chain_heads(tree.body[0])[0])
+    check(sw is not None and sw[0] == "self.solver" and [sorted(k) for k, _ in sw[1]] == [["auto"], ["exact", "full"]] and sw[2] is not None, "switch table read back from the normal form")
+
+
+def t_follow(repo):
+    src = '''
+    import xarray as xr
+    class K:
+        def _project(self, data, ck, nk, normalized):
+            comps = self.data[ck]
+            scores = xr.dot(data, comps)
+            return scores / self.data[nk] if normalized else scores
+        def run(self, X, normalized):
+            return self._project(X, "components1", "norm1", normalized)
+        def _first(self):
+            return self.items[0]
+    '''
+    d = tempfile.mkdtemp(prefix="xsa_et_")
+    try:
+        os.makedirs(os.path.join(d, "xeofs"))
+        # a miniature package: the program model wants >= 40 modules, so reuse the real tree and add one module
+        import shutil
+        shutil.copytree(os.path.join(repo, "xeofs"), os.path.join(d, "xeofs"), dirs_exist_ok=True)
+        open(os.path.join(d, "xeofs", "zz_fixture.py"), "w").write(textwrap.dedent(src))
+        pm = PM(d)
+        k = pm.cls("xeofs.zz_fixture.K")
+        run = k.methods["run"]
+        ff = FuncFacts.of(run)
+        ret = [s for s in ff.statements() if isinstance(s, ast.Return)][0]
+        plain = ff.paths(ret.value, spine_only=True)
+        check(any(p.atom.kind == "call" for p in plain) and not any(p.container_key() for p in plain), "without follow a helper call is an atom")
+        ps = ff.paths(ret.value, spine_only=True, follow=True)
+        keys = {p.container_key() for p in ps if p.container_key()}
+        check(keys == {("self.data", "components1"), ("self.data", "norm1")}, f"helper followed, key parameters read as the literals of the call site ({keys})")
+        check(any(p.atom.kind == "param" and p.atom.name == "X" and p.has_op("arg", "xr.dot") and p.has_op("via") for p in ps), "parameter bound to the argument; `via` records the helper")
+        div = [o for p in ps for o in p.ops if o.kind == "binop" and o.name == "Div"][0]
+        other = ff.eval_in(div.frame, div.other, spine_only=True)
+        check(any(q.container_key() == ("self.data", "norm1") for q in other), "eval_in: the other operand of an operation inside the helper, in caller terms")
+        from .resolve import Ctx
+        from .rules.common import closure_paths, class_closure
+        proj = k.methods["_project"]
+        dot = [c for c in FuncFacts.of(proj).calls() if getattr(c.func, "attr", "") == "dot"][0]
+        cps = closure_paths(pm, k, run, proj, dot.args[0], True)
+        check(any(p.atom.kind == "param" and p.atom.name == "X" for p in cps), "closure_paths: helper parameter read through the call site")
+        check({f.name for f in class_closure(pm, k, run)} == {"run", "_project"}, "class closure")
+    finally:
+        import shutil as _sh
+        _sh.rmtree(d, ignore_errors=True)
+
+
+def t_getattr_dispatch(repo):
+    src = '''
+    from .preprocessing.scaler import Scaler
+    class H:
+        def __init__(self):
+            self.scaler = Scaler()
+        def _apply(self, X, method_name):
+            return getattr(self.scaler, method_name)(X)
+        def forward(self, X):
+            return self._apply(X, "transform")
+        def backward(self, X):
+            return self._apply(X, "inverse_transform_data")
+    '''
+    d = tempfile.mkdtemp(prefix="xsa_et_")
+    try:
+        import shutil
+        shutil.copytree(os.path.join(repo, "xeofs"), os.path.join(d, "xeofs"))
+        open(os.path.join(d, "xeofs", "zz_fixture2.py"), "w").write(textwrap.dedent(src))
+        pm = PM(d)
+        from .resolve import Ctx, reachable
+        h = pm.cls("xeofs.zz_fixture2.H")
+        for entry, want, other in (("forward", "Scaler.transform", "Scaler.inverse_transform_data"), ("backward", "Scaler.inverse_transform_data", "Scaler.transform")):
+            got = {t.fn.qualname for _, _, t, _ in reachable(pm, Ctx(pm, h.methods[entry], h)) if t.fn is not None}
+            check(any(q.endswith(want) for q in got) and not any(q.endswith(other) for q in got), f"getattr dispatch with the caller's string constant: {entry} -> {want}")
+    finally:
+        import shutil as _sh
+        _sh.rmtree(d, ignore_errors=True)
+
+
+def t_alpha():
+    from .report import alpha
+    check(alpha("Z[:, i] = zri[0] + 1j * zri[1]") == alpha("Q[:, k] = w[0] + 1j * w[1]"), "constructs equal modulo renaming of locals")
+    check(alpha("np.array([a, b])") != alpha("np.asarray([a, b])"), "library names are kept")
+    check(alpha(".dropna(sample_name)") == alpha(".dropna(sn_rn)"), "receiver-less method constructs")
+    check(alpha("not python (") == "not python (", "unparsable text unchanged")
+
+
 def main():
     t_cfg_dominators()
     t_reaching_defs()
     t_guards_match_and_boolop()
     t_tuple_preserving_and_accumulator()
-    t_program_model(os.environ.get("XSA_REPO", "/repo"))
+    repo = os.environ.get("XSA_REPO", "/repo")
+    t_program_model(repo)
+    t_normal_forms()
+    t_conditions()
+    t_follow(repo)
+    t_getattr_dispatch(repo)
+    t_alpha()
     if FAILS:
         print(f"{len(FAILS)} engine test(s) failed")
         return 2
-    print("engine tests passed")
+    print(f"engine tests passed ({N_CHECKS[0]} assertions)")
     return 0
 
 
